@@ -139,7 +139,10 @@ func (e *ColEnum) DecodeColumn(r *Reader, rows int) error {
 }
 
 func (e *ColEnum) Reset() {
-	e.raw().Reset()
+	// Both widths: Infer may have switched the column to the other one since
+	// the rows were decoded.
+	e.raw8 = e.raw8[:0]
+	e.raw16 = e.raw16[:0]
 	e.Values = e.Values[:0]
 }
 
